@@ -51,7 +51,7 @@ def main():
                 for l in p.stdout.splitlines():
                     if l.startswith("VIOLATION") and "replay=" in l:
                         rp = l.split("replay=")[1].strip()
-                        if os.path.exists(rp):
+                        if os.path.exists(rp) and os.path.basename(rp) not in open(os.path.join(VERIF, "known_findings.json")).read():
                             os.remove(rp)
         finally:
             shutil.rmtree(d, ignore_errors=True)
